@@ -13,6 +13,7 @@ structure System where
   allToks : List Tok          -- the tokens in use
   kids : Obj → List Tid       -- the threads that call Done on a wait group
   adder : Obj → Tid           -- the one thread that calls Add and Wait on it
+  waiter : Obj → Tid          -- the one thread that may take what a close hands over
 
 def cnt (e : Ev) (l : List Ev) : Nat := l.count e
 
@@ -30,8 +31,10 @@ structure System.OK (S : System) : Prop where
   init_thr : ∀ k t, S.sp.init k = .thr t → t ∈ S.roots ∧ k ∈ S.allToks
   init_kind : ∀ k, (∃ t, S.sp.init k = .thr t) ∨ (∃ m, S.sp.init k = .mtx m)
   init_mtx : ∀ k m, S.sp.init k = .mtx m ↔ k ∈ S.sp.mtxPay m
-  /-- a close transfers nothing (no contract needs it in this system) -/
-  close_empty : ∀ c, S.sp.closePay c = []
+  /-- a close that hands tokens over has ONE receiver: when `closePay c ≠ []`, only `waiter c` has a `recvC c`, and only one
+      (a channel is closed at most once by the blocking semantics) -/
+  recvc_one : ∀ c, S.sp.closePay c ≠ [] →
+      (∀ t, t ≠ S.waiter c → .recvC c ∉ S.P t) ∧ cnt (.recvC c) (S.P (S.waiter c)) ≤ 1
   /-- spawned threads begin with `start`; `start` occurs nowhere else -/
   start_head : ∀ t, t ∉ S.roots → S.P t = [] ∨ ∃ r, S.P t = .start :: r ∧ .start ∉ r
   start_root : ∀ t, t ∈ S.roots → .start ∉ S.P t
